@@ -11,7 +11,7 @@ RULE = ("each case runs one seeded script twice in fresh worlds: through the git
         "coincide (logical clock), so notes are compared per commit id (files, sessions, line sets, prompt ids) and blame per file; both runs "
         "are also checked against the ledger. non-trivial = at least one note with AI lines compared and a rewrite op ran; distinct = op sequences")
 
-OPS = ["commit", "commit", "partial", "amend", "rebase", "cherry", "cherry-abandon", "reset", "stash", "squash", "switch", "pull"]
+OPS = ["commit", "commit", "partial", "amend", "rebase", "rebase-i", "cherry", "cherry-abandon", "reset", "stash", "squash", "switch", "pull"]
 
 
 def script(sc):
@@ -36,6 +36,11 @@ def script(sc):
         elif op == "cherry-abandon":
             sc.commit_all("pre")
             sc.op_cherry_conflict_abandoned_commit()
+        elif op == "rebase-i":
+            # the two modes learn the old -> new commit mapping of an interactive rebase differently (wrapper: walks the history;
+            # hooks: git's post-rewrite pairs, where every member of a squash / fixup chain is reported against the same new commit)
+            sc.commit_all("pre")
+            sc.op_rebase(kind="interactive")
         elif op in ("rebase", "cherry", "squash"):
             sc.commit_all("pre")
             {"rebase": sc.op_rebase, "cherry": sc.op_cherry_pick, "squash": sc.op_squash_merge}[op]()
